@@ -120,6 +120,11 @@ def texts(tier):
         ('backslash', 'forall <p> p="{<k> k}\\\\{<v> v}" in start: (= v "1")'),
         ('newline', 'forall <p> p="{<k> k}\n{<v> v}" in start: (= v "1")'),
         ('langle', 'forall <p> p="{<k> k} < {<v> v}" in start: (= v "1")'),
+        ('backslash-then-escape-letter', 'forall <p> p="{<k> k}\\\\n{<v> v}" in start: (= v "1")'),
+        ('backslash-then-quote', 'forall <p> p="{<k> k}\\\\\\"{<v> v}" in start: (= v "1")'),
+        ('trailing-backslash', 'forall <p> p="{<k> k}{<v> v}\\\\" in start: (= v "1")'),
+        ('hex-escape', 'forall <p> p="{<k> k}\\x5c\\x22{<v> v}" in start: (= v "1")'),
+        ('tab-escape', 'forall <p> p="{<k> k}\\t{<v> v}" in start: (= v "1")'),
         ('optional', 'exists <p> p="<k>[ < <v>]" in start: (= p "a")'),
         ('xpath-esc', '<p>.<k> = "a"'),
         ('xpath-esc', 'exists <p>: <p>.<v> = "1"'),
@@ -190,7 +195,7 @@ def _trees(name):
 
     if name == "esc":
         return closed_trees(canon(ESC), "<start>", 4)
-    if name in ("pairs", "row12"):
+    if name in ("pairs", "row12", "assgn2", "pairs2"):
         from . import c08
 
         return c08._trees(name, "quick")[:30]
